@@ -41,6 +41,14 @@ def graphs(draw, o=None):
             body.append(["work", 3])   # holds the script AFTER it has written its output ($3 / stdout) and before it exits
         if draw(st.integers(0, 99)) < csum_p:
             body.append(["stamp"])
+            if draw(st.integers(0, 99)) < o.get("p_lossy", 0):
+                # lossy projection: the declared dependencies do not reach the output, so a rebuild after an edit
+                # leaves the checksum unchanged
+                for stt in body:
+                    if stt[0] == "dep":
+                        stt[1] = 0
+            if draw(st.integers(0, 99)) < o.get("p_poststamp_gate", 0):
+                body.append(["work", 4])   # holds the script between its redo-stamp call and its exit
         return body
     stem_pair = None
     for i in range(nleaf):
